@@ -457,6 +457,15 @@ func c18Edge() []c18Input {
 			out = append(out, c18Input{Scenario: "close", Yields: 1, PreYields: base + pre})
 		}
 	}
+	// … with real parallelism between Close and the starting goroutines, many times over (not repeatable; every outcome
+	// is an observation): this is where the interleavings live that need a goroutine to be delayed between two adjacent
+	// statements — e.g. serviceStart between `running.Store(true)` and its select while Close runs and the service's own
+	// result reaches the `stopped` channel first (with the `verif` hooks compiled in, a hook sits in exactly that window)
+	for rep := 0; rep < tierN(100, 300); rep++ {
+		for _, ps := range [][2]int{{16, 100}, {4, 100}, {16, 10}, {4, 1000}, {2, 100}, {16, 1000}} {
+			out = append(out, c18Input{Scenario: "close", Procs: ps[0], Spin: ps[1]})
+		}
+	}
 	// shortly after creation, around the first ticks, around the slower flows, around GC
 	for _, at := range []int64{1, 1000, c18ms, 137 * c18ms, c18s - 1, c18s, c18s + 1, c18s + 1000, c18s + 137*c18ms, 1500 * c18ms,
 		3*c18s - 1, 3 * c18s, 3*c18s + 1, 5 * c18s, 5*c18s + 1, 30*c18s - 1, 30 * c18s, 30*c18s + 137*c18ms} {
